@@ -10,6 +10,8 @@
        (binarized) rewards, contexts, the learning policy with its flags, the LSH planes, the LSH hash tables bucket for bucket
        and position for position, and the generator - at the policy (NbrBatch.v) and at the public facade (NbrBatchFacade.v);
        the hash tables of rows c1 ++ c2 are those of c1 with c2 inserted at positions start + |c1| + i (insert_rows_app).
+    PROVED for TreeBandit (TreeWhole.v; one leaf function, i.e. the trees fitted at fit): any two ways of cutting the same history into fit +
+    partial_fit calls file the same rewards, in the same order, in every (arm, leaf) cell - all that prediction reads.
     PROVED for the linear policies (scale=False, exact arithmetic): any two ways of cutting the same per-arm rows into
     fit + partial_fit calls give the same A, X'y, A_inv and beta for every arm (X'X and X'y are additive over row blocks).
     PROVED for Clusters over context-free policies other than Thompson Sampling: one fit on the accumulated history, or fit +
@@ -18,7 +20,7 @@
     ..._partial: that KMeans does label alike (it is re-run on the whole history with the same seed) and MiniBatchKMeans are
     covered by the batch-versus-chunked relation only. *)
 From Coq Require Import List ZArith Bool Arith QArith Qcanon Permutation.
-From MW Require Import Num Assoc AssocFacts Rng Par CF CFInv CFClean CFForget CFSpec Matrix Lin Warm WarmInv Nbr NbrFacts NbrIndep LshFacts Clu Tree CellFacts Mab FacadeCF FacadeArms MoreFacts NumLaws CFAlg Sim Extra QcInst OrderFacts ExpIrrel LinInv FacadeLin LpInv NbrInv CluTreeInv FacadeAll ToyFacts C09All C10All LinForget LinSim MatrixFacts GaussJordan LinSpec NbrIndepGen CluIndep C17Lin WarmIdem C14More LshScale TreeLeaf Rename PopSpec CopyFacts StatFacts CluBatch LinWarm NbrBatch NbrBatchFacade.
+From MW Require Import Num Assoc AssocFacts Rng Par CF CFInv CFClean CFForget CFSpec Matrix Lin Warm WarmInv Nbr NbrFacts NbrIndep LshFacts Clu Tree CellFacts Mab FacadeCF FacadeArms MoreFacts NumLaws CFAlg Sim Extra QcInst OrderFacts ExpIrrel LinInv FacadeLin LpInv NbrInv CluTreeInv FacadeAll ToyFacts C09All C10All LinForget LinSim MatrixFacts GaussJordan LinSpec NbrIndepGen CluIndep C17Lin WarmIdem C14More LshScale TreeLeaf Rename PopSpec CopyFacts StatFacts CluBatch LinWarm NbrBatch NbrBatchFacade TreeWhole RowOrder.
 Import ListNotations.
 
 Theorem C06_statistics_depend_only_on_concatenated_history :
@@ -97,6 +99,21 @@ Theorem C06_clusters_batch_equals_incremental :
   fst (clu_fit N aeqb s g' (ds1 ++ ds2) (rs1 ++ rs2) (cx1 ++ cx2) labels).
 Proof. exact @clusters_batch_equals_incremental. Qed.
 Print Assumptions C06_clusters_batch_equals_incremental.
+
+Theorem C06_tree_cut_of_the_history_is_irrelevant :
+  forall (R A : Type) (aeqb : A -> A -> bool),
+  (forall x y : A, aeqb x y = true <-> x = y) ->
+  forall (s : (@tree R A)) (leaf : A -> list R -> nat) (b0 b0' : list (A * R * list R))
+    (h h' : list (list (A * R * list R))) (a : A) (lf : nat),
+  NoDup (t_arms s) ->
+  In a (t_arms s) ->
+  b0 ++ concat h = b0' ++ concat h' ->
+  leaves_at aeqb (tree_partials aeqb (tree_fit aeqb s leaf (ds_of b0) (rs_of b0) (cx_of b0)) leaf h) a
+    lf =
+  leaves_at aeqb (tree_partials aeqb (tree_fit aeqb s leaf (ds_of b0') (rs_of b0') (cx_of b0')) leaf h')
+    a lf.
+Proof. exact @tree_cut_of_the_history_is_irrelevant. Qed.
+Print Assumptions C06_tree_cut_of_the_history_is_irrelevant.
 
 Theorem C06_neighbourhood_policy_fit_whole_equals_fit_then_partial_fit :
   forall (R A G : Type) (N : Num R) (RG : RngOps R G) (s : (@nbr R A G)) (g : G) (d1 d2 : list A)
